@@ -126,7 +126,7 @@ func runIns(r *mc.Run, scen string, ins []In, st *mc.Stats) bool {
 		st.Transitions += int64(len(outs))
 		st.States++
 		if !expectVerify(in) {
-			h := sha256.Sum256(append([]byte(in.Ask+"|"+strings.Join(in.KeyringNames, ",")+"|"), in.Deb...))
+			h := sha256.Sum256(append([]byte(in.Ask+"|"+strings.Join(in.KeyringNames, ",")+"|"+fmt.Sprint(in.Calls)+"|"), in.Deb...))
 			st.DistinctNontrivial(string(h[:]))
 		}
 		classes := map[string]bool{}
@@ -292,6 +292,63 @@ func Run(r *mc.Run) {
 	}
 	e.scenario("role-keyring-matrix", map[string]interface{}{"bases": names(bases), "role_present": roles, "role_asked": roles, "keyrings": keyrings,
 		"signature_member_position": []string{"end", "after-debian-binary"}, "extra": "two-signature package and the same with the two signature members' names swapped"}, ins, 8)
+
+	// ---- scenario 1b: CALL SEQUENCES on one loaded Deb: all sequences of <= 3 CheckDebsig calls over
+	// (role in {origin, maint, archive, ""}) x (keyring in {[K1],[K2],[K1,K2],{}}), for a package signed by K1 as origin and
+	// for one signed twice (origin by K1, maint by K2). Each call is judged independently of the history.
+	{
+		seqRoles := []string{"origin", "maint", "archive", ""}
+		var alphabet []Call
+		for _, ro := range seqRoles {
+			for _, kr := range keyrings {
+				alphabet = append(alphabet, Call{Ask: ro, KeyringNames: append([]string{}, kr...)})
+			}
+		}
+		type seqPkg struct {
+			b    base
+			name string
+			deb  []byte
+			sigs []SigInfo
+		}
+		var pkgs []seqPkg
+		nSeqBases := r.Pick(1, 2)
+		for _, b := range bases[:nSeqBases] {
+			smO, siO := e.sigMember("origin", "K1", b.signed())
+			smM, siM := e.sigMember("maint", "K2", b.signed())
+			pkgs = append(pkgs,
+				seqPkg{b, "signed origin by K1", gen.BuildAr(append(append([]gen.ArMember(nil), b.mem...), smO)), []SigInfo{siO}},
+				seqPkg{b, "signed origin by K1 and maint by K2", gen.BuildAr(append(append([]gen.ArMember(nil), b.mem...), smO, smM)), []SigInfo{siO, siM}})
+		}
+		keysArm := map[string]string{"K1": e.k1.Public, "K2": e.k2.Public}
+		maxLen := 3
+		nSeq := 0
+		for l, p := 1, len(alphabet); l <= maxLen; l, p = l+1, p*len(alphabet) {
+			nSeq += p
+		}
+		mkSeq := func(pk seqPkg, calls []Call) In {
+			var parts []string
+			for _, c := range calls {
+				parts = append(parts, c.String())
+			}
+			return In{Name: pk.b.name + " " + pk.name + ": " + strings.Join(parts, "; "), Kind: "sequence", Model: pk.b.model, Exp: pk.b.exp, Sigs: pk.sigs,
+				Keyring: []string{}, KeyringNames: []string{}, Deb: pk.deb, Calls: append([]Call(nil), calls...), Keys: keysArm}
+		}
+		// one shard per (package, first call): the sequence [first] and all its extensions
+		e.r.Scenario("call-sequences", map[string]interface{}{"packages": []string{"signed origin by K1", "signed origin by K1 and maint by K2"}, "bases": names(bases[:nSeqBases]),
+			"roles": seqRoles, "keyrings": keyrings, "calls_alphabet": len(alphabet), "max_calls": maxLen, "sequences_per_package": nSeq,
+			"oracle": "each call judged alone: success only if the asked role's member exists and is a signature by a key in the keyring passed to THAT call over the exposed members; failures are never objected to"},
+			len(pkgs)*len(alphabet), func(si int, st *mc.Stats) bool {
+				pk, first := pkgs[si/len(alphabet)], alphabet[si%len(alphabet)]
+				ins := []In{mkSeq(pk, []Call{first})}
+				for _, c2 := range alphabet {
+					ins = append(ins, mkSeq(pk, []Call{first, c2}))
+					for _, c3 := range alphabet {
+						ins = append(ins, mkSeq(pk, []Call{first, c2, c3}))
+					}
+				}
+				return runIns(e.r, "call-sequences", ins, st)
+			})
+	}
 
 	// ---- scenario 2: every byte of the three signed members and of the signature member, 2 (thorough 3) other values;
 	// ---- scenario 2b: length-changing faults of the same four members: a byte inserted at every position (2 values),
